@@ -15,8 +15,11 @@ PROP = {
                   "blocking-mode response table (A/AAAA exact, other qtypes validity); not blocked => exactly one "
                   "upstream question and the upstream answer, question, id and rcode intact. TestVFC01Runtime "
                   "additionally changes the configuration of a running server through the admin API between query "
-                  "phases (lists switched off and on again with unchanged contents, set_rules, filtering/config, "
-                  "protection on/off/pause, blocking mode, blocked services) and checks every phase against the model "
+                  "phases (lists switched off and on again, lists given another source -- also one that yields no "
+                  "rules --, list sources rewritten by their publisher and then refreshed through the API or read "
+                  "again when the list is switched on, set_rules, filtering/config, protection on/off/pause through "
+                  "/control/protection and through /control/dns_config (also during a pause), blocking mode, blocked "
+                  "services, updates of the persistent client's settings, the DNS response cache on or off) and checks every phase against the model "
                   "of the configuration then in force; since the engines are rebuilt in the background a deviating "
                   "outcome is retried for 4 s before it counts. Exploration level: "
                   "thousands of configurations, no absence claim.",
@@ -45,5 +48,7 @@ PROP = {
     "require_classes": {"thorough": ["verdict:network", "verdict:hosts", "verdict:service", "verdict:allowlist",
                                       "verdict:exception", "wire:verdict:network",
                                       "rt:verdict:network", "rt:list_off_then_on_again", "rt:op:set_rules",
-                                      "rt:op:protection", "rt:op:mode", "rt:op:services"]},
+                                      "rt:op:protection", "rt:op:mode", "rt:op:services",
+                                      "rt:op:repoint_block", "rt:op:refresh", "rt:repoint_block:accepted:rules=0",
+                                      "rt:protection_via_dns_config"]},
 }
